@@ -577,6 +577,7 @@ func rulesC18(c *Ctx) {
 
 	c.Rule("R-C18-6", "a cache fill that follows an RPC is conditional on the cache's invalidation generation read before the RPC; every notification-driven invalidation moves the generation", func() {
 		hs := c.FnObj(pM, "", "handleSend")
+		c.Must(c.P.LookupFuncObj(pM, "methodCache", "generation") != nil && c.P.LookupFuncObj(pM, "methodCache", "putIfCurrent") != nil, "methodCache:generation-guard-exists", nil, nil, "the client cache has an invalidation generation (generation / putIfCurrent): without it a result fetched across an invalidation is cached")
 		genObj := c.FnObj(pM, "methodCache", "generation")
 		pic := c.FnObj(pM, "methodCache", "putIfCurrent")
 		put := c.FnObj(pM, "methodCache", "put")
